@@ -483,4 +483,24 @@ def c04_short_mid(call=7, keep=47):
         k += 1
     return {"violates": bad, "detail": f"write call {call} stored {keep} byte(s) (short write), writer {'returned normally' if accepted else 'raised'}: read back {[o if isinstance(o, str) else o[0] for o in out]!r}, ended {end}; written {[w_[0] for w_ in want]!r}"}
 
-CALLS = {"c04_short_mid": c04_short_mid, "c04_equal_frames_cut": c04_equal_frames_cut, "c04_extra_bytes": c04_extra_bytes, "c04_short_prefix": c04_short_prefix, "c04_gz_flushpoint": c04_gz_flushpoint, "c04_large_values": c04_large_values, "c04_roundtrip": c04_roundtrip, "c04_cut": c04_cut, "c04_unknown_identifier": c04_unknown_identifier, "c04_fail": c04_fail, "c04_sweep": c04_sweep, "c04_model_conformance": c04_model_conformance}
+
+def c04_complete_then_damage(k=1):
+    import struct
+
+    from flow.record.packer import RecordPacker
+    from flow.record.stream import RecordStreamReader
+
+    D = _descs()
+    p = RecordPacker()
+    frames = [p.pack(D[0])] + [p.pack(D[0](n=i, s="v")) for i in range(k)] + [p.pack(D[0](n=5, s="v")) + b"\x05"]
+    hdr = b"\x00\x00\x00\x0f\xc4\x0dRECORDSTREAM\n"
+    data = hdr + b"".join(struct.pack(">I", len(f)) + f for f in frames)
+    out, end = [], "stop"
+    try:
+        for r in RecordStreamReader(io.BytesIO(data)):
+            out.append(r.n)
+    except Exception as e:
+        end = f"raise {type(e).__name__}"
+    return {"violates": out != list(range(k)) or end == "stop", "detail": f"{k} complete record frame(s) then a damaged one: yielded {out}, ended {end}"}
+
+CALLS = {"c04_complete_then_damage": c04_complete_then_damage, "c04_short_mid": c04_short_mid, "c04_equal_frames_cut": c04_equal_frames_cut, "c04_extra_bytes": c04_extra_bytes, "c04_short_prefix": c04_short_prefix, "c04_gz_flushpoint": c04_gz_flushpoint, "c04_large_values": c04_large_values, "c04_roundtrip": c04_roundtrip, "c04_cut": c04_cut, "c04_unknown_identifier": c04_unknown_identifier, "c04_fail": c04_fail, "c04_sweep": c04_sweep, "c04_model_conformance": c04_model_conformance}
